@@ -270,8 +270,12 @@ def r8_4(prog, rep):
                 ok = isinstance(par, ast.Call) and dotted(par.func) == "len" and par.args and par.args[0] is a
                 obl(rep, f, a, "R8.4", ok, f"`{unparse(a)}` is read only to take its length", "",
                     f"`{short(par) if par is not None else unparse(a)}`: index labels become values or sizes (non-default indexes change the result)")
-    if n < 3:
-        raise AnalysisError("R8.4: fewer than 3 reads of `.index` found (expected the row-count idiom len(frame.index))")
+    # the row count may equally be taken as frame.shape[0]: both idioms count towards the floor
+    n_shape = sum(1 for f2 in prog.functions.values() if f2.parent is None for a in ast.walk(f2.node)
+                  if isinstance(a, ast.Subscript) and isinstance(a.ctx, ast.Load) and unparse(a).endswith(".shape[0]"))
+    n_shape = min(n_shape, 2)   # the idiom may replace len(frame.index) at some sites; at least one `.index` read must remain visible
+    if n + n_shape < 3:
+        raise AnalysisError("R8.4: fewer than 3 reads of `.index` / `.shape[0]` found (expected the row-count idiom len(frame.index))")
     # no value is re-labelled on the way: every pandas object of one evaluation keeps the labels of the frame it came from, so
     # label-aligned operations (Series arithmetic, two-argument ufuncs, user functions) combine the same rows
     RELABEL = ("reset_index", "set_index", "reindex", "reindex_like", "sort_index", "set_axis", "droplevel", "swaplevel")
